@@ -29,7 +29,7 @@ type ContractCase struct {
 	Yaml   bool   `json:"yaml"`
 	Color  bool   `json:"color"`
 	Blanks bool   `json:"blanks,omitempty"` // -setkeys written with blanks around the keys
-	Mode   string `json:"mode"` // diff | translate | gitdiff
+	Mode   string `json:"mode"`             // diff | translate | gitdiff
 	Tr     string `json:"tr,omitempty"`
 	TrIn   string `json:"tr_in,omitempty"`
 }
